@@ -444,6 +444,14 @@ func (t *TokenWatcher) GetBlockHeight() (uint32, error) {
 		t.p.N.MineOnHeightCall[t.chain] = q[1:]
 	}
 	h := w.Chains[t.chain].Height
+	if q := t.p.N.HeightLag[t.chain]; len(q) > 0 {
+		if q[0] < h {
+			h -= q[0]
+		} else {
+			h = 0
+		}
+		t.p.N.HeightLag[t.chain] = q[1:]
+	}
 	t.p.N.HeightCalls = append(t.p.N.HeightCalls, HeightCall{TraceIdx: len(w.Trace) - 1, Chain: t.chain, Height: h})
 	return h, nil
 }
